@@ -9,7 +9,7 @@ import sys
 
 from pydantic import BaseModel
 
-from rv import core
+from rv import core, sched
 
 PID = "C18"
 LEVEL = "exploration"
@@ -51,6 +51,14 @@ class Boom(Exception):
     pass
 
 
+class Runaway(BaseException):
+    """raised by a stub once a loop has gone far beyond any configured budget, so that a loop that never stops becomes a
+    recorded violation instead of a hang (BaseException: the loops' own handlers cannot swallow it)"""
+
+
+HARD_CAP = 60
+
+
 def heal_programs():
     """behaviour programs: list of per-attempt tokens (cycled when exhausted)."""
     progs = []
@@ -65,6 +73,8 @@ def heal_programs():
     progs.append(["grow"])                        # growing outputs
     progs.append(["echo", "valid"])
     progs.append(["other_schema", "echo", "grow", "valid"])
+    progs.append(["invalid_type", "missing", "truncated", "other_schema", "array", "garbage", "valid"])   # never repeats an invalid output
+    progs.append(["grow"] * 6 + ["valid"])
     return progs
 
 
@@ -86,6 +96,9 @@ def swarm_programs():
     progs.append({"worker": "unique", "marker_at": None, "raise_factory": 1})
     progs.append({"worker": "repeat", "marker_at": None, "raise_summarizer": 0})
     progs.append({"worker": "near", "marker_at": None})   # near-miss words that carry no marker
+    for mem in ("none", "window2", "prefilled"):
+        progs.append({"worker": "unique", "marker_at": None, "memory": mem})
+        progs.append({"worker": "unique", "marker_at": (1, 2), "marker": "DONE", "memory": mem})
     return progs
 
 
@@ -105,6 +118,8 @@ def tool_programs():
     progs.append({"calls_per_round": [1], "forever": True, "no_tools": True})
     progs.append({"calls_per_round": [2], "forever": True, "same_ids": True})
     progs.append({"calls_per_round": [1], "forever": True, "provider_raises_round": 2})
+    progs.append({"calls_per_round": [1], "forever": True, "reentrant_tool": True})
+    progs.append({"calls_per_round": [2, 1], "forever": True, "reentrant_tool": True})
     return progs
 
 
@@ -121,27 +136,32 @@ def plan(tier):
             "min_nontrivial": 200, "timeout": 300 if tier == "quick" else 1200,
             "require": {"generator_calls": 1000, "worker_steps": 1000, "provider_tool_rounds": 300,
                         "degraded_results": 20, "healed_results": 20, "swarm_success": 20,
-                        "tool_loop_exhausted": 20}}
+                        "tool_loop_exhausted": 20, "heal_runs_with_stock_chaperone": 500, "echoed_outputs_checked": 200,
+                        "reentrant_tool_loops": 100, "thread_schedules": 1000}}
 
 
 def run_case(ctx, n):
     if n < len(SWEEP):
         kind, lim, i = SWEEP[n]
         if kind == "heal":
-            return case_heal(ctx, lim, HEAL_PROGS[i], 0.1)
+            case_heal(ctx, lim, HEAL_PROGS[i], 0.1)
+            return case_heal(ctx, lim, HEAL_PROGS[i], 0.1, plain=True)
         if kind == "swarm":
             return case_swarm(ctx, lim[0], lim[1], SWARM_PROGS[i], 0.9)
         return case_tool(ctx, lim, TOOL_PROGS[i])
     rng = ctx.rng(n)
+    if n % (1500 if ctx.tier == "quick" else 20000) == 7:
+        return case_tool_threads(ctx, n, rng)
     kind = rng.choice(["heal", "swarm", "tool"])
     if kind == "heal":
         toks = list(OUTPUTS) + ["echo", "grow", "raise"]
         prog = [rng.choice(toks) for _ in range(rng.randint(1, 7))]
         if rng.random() < 0.5:
             prog = [t if t not in ("valid", "fenced") else "missing" for t in prog[:-1]] + [prog[-1]]
-        return case_heal(ctx, rng.randint(0, 6), prog, rng.choice([0.0, 0.1, 0.5, 1.0]))
+        return case_heal(ctx, rng.randint(0, 6), prog, rng.choice([0.0, 0.1, 0.5, 1.0]), plain=rng.random() < 0.5)
     if kind == "swarm":
-        prog = {"worker": rng.choice(["unique", "repeat", "empty", "two_cycle", "near"]), "marker_at": None}
+        prog = {"worker": rng.choice(["unique", "repeat", "empty", "two_cycle", "near"]), "marker_at": None,
+                "memory": rng.choice(["full", "full", "none", "window2", "prefilled"])}
         if rng.random() < 0.6:
             prog["marker_at"] = (rng.randint(0, 5), rng.randint(0, 6))
             prog["marker"] = rng.choice(["SUCCESS", "done", "abcCOMPLETEd", "solved", "Finished."])
@@ -154,7 +174,7 @@ def run_case(ctx, n):
             prog["raise_summarizer"] = rng.randint(0, 2)
         return case_swarm(ctx, rng.randint(0, 5), rng.randint(0, 6), prog, rng.choice([0.0, 0.5, 0.9, 1.0]))
     prog = {"calls_per_round": [rng.randint(0, 4) for _ in range(rng.randint(1, 5))], "forever": rng.random() < 0.6}
-    for flag, p in [("unknown_tool", .15), ("raising_tool", .15), ("same_ids", .1), ("no_cwt", .05), ("no_tools", .05)]:
+    for flag, p in [("unknown_tool", .15), ("raising_tool", .15), ("same_ids", .1), ("no_cwt", .05), ("no_tools", .05), ("reentrant_tool", .15)]:
         if rng.random() < p:
             prog[flag] = True
     if rng.random() < 0.15:
@@ -165,7 +185,7 @@ def run_case(ctx, n):
 
 
 # ------------------------------------------------------------------ healing loop
-def case_heal(ctx, max_retries, prog, decay):
+def case_heal(ctx, max_retries, prog, decay, plain=False):
     from operon_ai.healing.chaperone_loop import ChaperoneLoop, HealingOutcome
     from operon_ai.organelles.chaperone import Chaperone
 
@@ -176,6 +196,8 @@ def case_heal(ctx, max_retries, prog, decay):
         k = len(calls)
         calls.append((prompt, error_context))
         ctx.count("generator_calls")
+        if k > max_retries + HARD_CAP:
+            raise Runaway("generator called %d times" % (k + 1))
         tok = prog[k] if k < len(prog) else prog[-1] if len(prog) == 1 else prog[k % len(prog)]
         if tok == "raise":
             outs.append(None)
@@ -201,7 +223,9 @@ def case_heal(ctx, max_retries, prog, decay):
             traces.append(r.error_trace)
             return r
 
-    loop = ChaperoneLoop(generator=generator, chaperone=TaggingChaperone(silent=True), schema=Item,
+    if plain:
+        ctx.count("heal_runs_with_stock_chaperone")
+    loop = ChaperoneLoop(generator=generator, chaperone=(Chaperone(silent=True) if plain else TaggingChaperone(silent=True)), schema=Item,
                          max_retries=max_retries, confidence_decay=decay, silent=True)
     desc = {"loop": "heal", "max_retries": max_retries, "program": prog, "decay": decay}
     raised = None
@@ -210,6 +234,9 @@ def case_heal(ctx, max_retries, prog, decay):
         result = loop.heal("make an item")
     except Boom as e:
         raised = e
+    except Runaway as e:
+        ctx.violation("heal-call-budget", "healing loop ran away: %s with max_retries=%d" % (e, max_retries), desc)
+        return
     except Exception as e:
         ctx.violation("heal-raises", "heal() raised %s although the generator did not" % type(e).__name__,
                       dict(desc, error=repr(e)))
@@ -221,8 +248,25 @@ def case_heal(ctx, max_retries, prog, decay):
     # error-context threading, judged at the generator (independent fresh validator computes the expected trace)
     if calls and calls[0][1] is not None:
         ctx.violation("heal-first-context", "first generator call received an error context", dict(desc, ctx0=calls[0][1]))
+    # stale feedback: if this implementation echoes the previous attempt's output in the context (observed on retry 1), then a later
+    # retry must echo ITS previous attempt's output, not an older one
+    def marker(o):
+        return o[:40] if isinstance(o, str) and len(o.strip()) >= 8 else None
+    echoes = ncalls >= 2 and marker(outs[0]) is not None and calls[1][1] is not None and marker(outs[0]) in calls[1][1]
+    if echoes:
+        for k in range(2, ncalls):
+            mk, older = marker(outs[k - 1]), [marker(o) for o in outs[:k - 1]]
+            if mk is None or calls[k][1] is None:
+                continue
+            ctx.count("echoed_outputs_checked")
+            if mk not in calls[k][1] and any(m and m != mk and m in calls[k][1] for m in older):
+                ctx.violation("heal-context-stale-output", "retry %d was fed the context of an older attempt (it echoes an older output, not attempt %d's)" % (k, k - 1),
+                              dict(desc, attempt=k, context=calls[k][1], previous_output=outs[k - 1]))
+                break
     for k in range(1, ncalls):
         got = calls[k][1]
+        if plain:
+            break
         exp_trace = traces[k - 1] if k - 1 < len(traces) and traces[k - 1] else "<no fold recorded for attempt %d>" % (k - 1)
         ctx.count("retry_contexts_checked")
         if got is None or exp_trace not in got:
@@ -293,6 +337,8 @@ def case_swarm(ctx, max_regen, max_steps, prog, threshold):
         def step(self, task):
             k = len(steps[self.idx])
             ctx.count("worker_steps")
+            if k > max_steps + HARD_CAP:
+                raise Runaway("worker %d stepped %d times" % (self.idx, k + 1))
             if prog.get("raise_step") == (self.idx, k):
                 steps[self.idx].append(None)
                 raise Boom("worker step failed")
@@ -311,13 +357,24 @@ def case_swarm(ctx, max_regen, max_steps, prog, threshold):
                 else:
                     o = NEAR[k % len(NEAR)] + " %d" % k
             steps[self.idx].append(o)
-            self.memory.add_attempt(task, o)
+            mem = prog.get("memory", "full")      # how this (protocol-compliant) worker keeps its own memory
+            if mem == "full":
+                self.memory.add_attempt(task, o)
+            elif mem == "window2":
+                self.memory.add_attempt(task, o)
+                del self.memory.task_history[:-2]
+                del self.memory.output_history[:-2]
+            elif mem == "prefilled" and k == 0:
+                for _ in range(3):
+                    self.memory.add_attempt("earlier life", "x")
             return o
 
     def factory(name, hints):
         idx = len(factory_calls)
         factory_calls.append((name, list(hints)))
         ctx.count("factory_calls")
+        if idx > max_regen + HARD_CAP:
+            raise Runaway("factory called %d times" % (idx + 1))
         if prog.get("raise_factory") == idx:
             raise Boom("factory failed")
         steps[idx] = []
@@ -340,6 +397,10 @@ def case_swarm(ctx, max_regen, max_steps, prog, threshold):
         result = swarm.supervise("task")
     except Boom:
         raised = True
+    except Runaway as e:
+        mech = "swarm-step-budget" if "stepped" in str(e) else "swarm-spawn-budget"
+        ctx.violation(mech, "swarm ran away: %s (max_regenerations=%d, max_steps_per_worker=%d)" % (e, max_regen, max_steps), desc)
+        return
     except Exception as e:
         ctx.violation("swarm-raises", "supervise() raised %s" % type(e).__name__, dict(desc, error=repr(e)))
         return
@@ -399,9 +460,16 @@ def case_tool(ctx, max_iter, prog):
             return resp("final")
 
         def complete_with_tools(self, prompt, tools=None, config=None):
+            if prompt.startswith("sub-question"):
+                log["sub_cwt"] = log.get("sub_cwt", 0) + 1
+                if log["sub_cwt"] > HARD_CAP:
+                    raise Runaway("nested tool loop ran %d rounds" % log["sub_cwt"])
+                return resp("sub answer"), []
             log["cwt"] += 1
             ctx.count("provider_tool_rounds")
             r = log["cwt"]
+            if r > max_iter + HARD_CAP:
+                raise Runaway("complete_with_tools called %d times" % r)
             log["prompts"].append(len(prompt))
             if prog.get("provider_raises_round") == r:
                 raise Boom("provider failed in round %d" % r)
@@ -436,6 +504,10 @@ def case_tool(ctx, max_iter, prog):
         ctx.count("tool_runs")
         if prog.get("raising_tool"):
             raise Boom("tool failed")
+        if prog.get("reentrant_tool"):
+            # a "sub-agent" tool: runs its own (short) tool loop on the same nucleus while the outer one is in progress
+            ctx.count("reentrant_tool_loops")
+            nucleus.transcribe_with_tools("sub-question %d" % log["tool_runs"], mito, max_iterations=1)
         return x * 2
 
     mito = Mitochondria(silent=True)
@@ -450,6 +522,9 @@ def case_tool(ctx, max_iter, prog):
         r = nucleus.transcribe_with_tools("question", mito, max_iterations=max_iter, auto_execute=auto)
     except Boom:
         raised = True
+    except Runaway as e:
+        ctx.violation("tool-round-budget", "tool loop ran away: %s with max_iterations=%d" % (e, max_iter), desc)
+        return
     except Exception as e:
         ctx.violation("tool-loop-raises", "transcribe_with_tools raised %s" % type(e).__name__, dict(desc, error=repr(e)))
         return
@@ -472,6 +547,71 @@ def case_tool(ctx, max_iter, prog):
     if log["cwt"] >= 2 or (log["cwt"] >= 1 and log["tool_runs"] >= 1):
         ctx.nontrivial(("tool", max_iter, json.dumps(prog, sort_keys=True), log["cwt"], log["complete"], log["tool_runs"]))
     ctx.sample(desc)
+
+
+def case_tool_threads(ctx, n, rng):
+    """two threads run tool loops on ONE shared Nucleus under the line-level scheduler; each loop's own budget must hold"""
+    from operon_ai.organelles.nucleus import Nucleus
+    from operon_ai.organelles.mitochondria import Mitochondria
+    from operon_ai.providers import LLMResponse, ToolCall
+    limits = [rng.randint(1, 3), rng.randint(1, 3)]
+    desc = {"loop": "tool-threads", "max_iterations": limits}
+
+    class Provider:
+        name = "stub"
+
+        def __init__(self):
+            self.rounds = {}
+            self.finals = {}
+
+        def is_available(self):
+            return True
+
+        def complete(self, prompt, config=None):
+            q = prompt.split("|")[0]
+            self.finals[q] = self.finals.get(q, 0) + 1
+            return LLMResponse(content="final", model="m", tokens_used=1, latency_ms=0.0)
+
+        def complete_with_tools(self, prompt, tools=None, config=None):
+            q = prompt.split("|")[0]
+            self.rounds[q] = self.rounds.get(q, 0) + 1
+            if self.rounds[q] > 3 + HARD_CAP:
+                raise Runaway("loop %s ran %d rounds" % (q, self.rounds[q]))
+            return LLMResponse(content="r", model="m", tokens_used=1, latency_ms=0.0), [ToolCall(id="c", name="probe", arguments={})]
+
+    sched.instrument(Nucleus, Provider)
+
+    def one(policy, label):
+        prov = Provider()
+        nucleus = Nucleus(provider=prov)
+        mito = Mitochondria(silent=True)
+        mito.register_function("probe", lambda: 1, "probe")
+        sc = sched.Scheduler(policy, watchdog_s=30.0)
+        sc.run([(lambda i=i: nucleus.transcribe_with_tools("q%d|" % i, mito, max_iterations=limits[i])) for i in range(2)])
+        ctx.count("thread_schedules")
+        w = dict(desc, policy=label, rounds=dict(prov.rounds), finals=dict(prov.finals), choices=sc.choices[:200])
+        if sc.stuck:
+            ctx.inconclusive("a schedule hit the wall-clock watchdog (not a verdict)")
+            return sc
+        for i in range(2):
+            e = sc.errors[i]
+            if isinstance(e, Runaway) or prov.rounds.get("q%d" % i, 0) > limits[i] or prov.finals.get("q%d" % i, 0) > 1:
+                ctx.violation("tool-round-budget:concurrent", "loop q%d did %d tool rounds / %d final completions with max_iterations=%d while another loop ran on the same nucleus" % (
+                    i, prov.rounds.get("q%d" % i, 0), prov.finals.get("q%d" % i, 0), limits[i]), w)
+                break
+        if sc.switch_while_other_inside:
+            ctx.nontrivial(("tool-threads", sc.trace_hash()))
+        return sc
+
+    base = one(sched.PreemptionPolicy({}), "pb(0)")
+    N = max(base.step, 1)
+    combos = [(s_, t) for s_ in range(1, N + 1) for t in range(2)]
+    if len(combos) > 150:
+        combos = rng.sample(combos, 150)
+    for (s_, t) in combos:
+        one(sched.PreemptionPolicy({s_: t}), "pb(1)")
+    for i in range(50):
+        one(sched.RandomPolicy(rng, (0.1, 0.3, 0.6)[i % 3]), "random")
 
 
 if __name__ == "__main__":
